@@ -87,8 +87,14 @@ def _in(label, labels):
 
 # ----------------------------------------------------------------------------- IndexGO histories
 def snap_index(idx):
-    vals = idx.values.tolist()
-    npos = len(idx.positions)
+    try:
+        vals = idx.values.tolist()
+    except Exception as e:  # noqa
+        vals = [_unreadable(e)]
+    try:
+        npos = len(idx.positions)
+    except Exception:  # noqa
+        npos = -1
     locs = []
     for l in vals:
         try:
@@ -301,7 +307,10 @@ CORPUS_INDEX = [
 
 def index_cases(ctx):
     def emit(kind, auto, labels, ops, look):
-        desc, m, s = index_history(auto, labels, ops, look)
+        try:
+            desc, m, s = index_history(auto, labels, ops, look)
+        except Exception as e:  # noqa
+            return _escaped(kind, {'container': 'IndexGO', 'loc_is_iloc': auto, 'labels': _j(labels), 'ops': _j([list(o) for o in ops])}, e, {'container': 'IndexGO'})
         f = classify_index_ops(auto, labels, ops)
         ctx.count(f'index:{"auto" if auto else "map"}', f'index:len{len(ops)}')
         for op in ops:
@@ -436,16 +445,83 @@ def apply_frame_op(g, op):
     raise ValueError(kind)
 
 
+def _escaped(kind, desc, e, tags):
+    """An exception escaped from the implementation while a history was run or observed: the case is reported
+    (python-side) and the remaining cases still run."""
+    import traceback
+    tb = traceback.format_exc().splitlines()[-6:]
+    d = dict(desc)
+    d['escaped'] = f'{type(e).__name__}: {str(e)[:200]}'
+    d['traceback'] = tb
+    return Case(kind, d, py_fail=f'{type(e).__name__} escaped while running / observing the history: {str(e)[:160]}', tags=tags)
+
+
+
+def _unreadable(e):
+    return f'<unreadable: {type(e).__name__}>'
+
+
+def _column_reads(fr):
+    """Every data column by position, read through the block directory; a read that raises becomes part of the
+    observation (a one-cell object column naming the exception), so the case is still compared with M and S."""
+    cols = []
+    try:
+        n = int(fr._blocks._shape[1])
+    except Exception:  # noqa
+        n = 0
+    for j in range(n):
+        try:
+            a = fr._blocks._extract_array(column_key=j)
+            cols.append((a.dtype, lit.array_vals(a)))
+        except Exception as e:  # noqa
+            cols.append((np.dtype(object), [_unreadable(e)]))
+    return cols
+
+
+def _alt_reads(fr, cols):
+    """Reads that walk the whole column directory must agree with the per-position reads: iter_array(axis=0),
+    the last column by negative position, an open-ended and a reversed column slice.  Returns None or what disagrees."""
+    want = [repr(list(vs)) for _, vs in cols]
+    try:
+        got = [repr(lit.array_vals(a)) for a in fr.iter_array(axis=0)]
+        if got != want:
+            return f'iter_array(axis=0) gives {got[:4]}, columns by position are {want[:4]}'
+        n = len(cols)
+        if n >= 1:
+            a = fr.iloc[:, -1].values
+            if repr(lit.array_vals(a)) != want[-1]:
+                return f'iloc[:, -1] gives {lit.array_vals(a)!r}, the last column is {want[-1]}'
+        if n >= 2 and fr.shape[0] >= 1:
+            for key, sel in ((slice(1, None), want[1:]), (slice(None, None, -1), want[::-1])):
+                sub = fr.iloc[:, key]
+                got = [repr(lit.array_vals(sub._blocks._extract_array(column_key=j))) for j in range(sub.shape[1])]
+                if got != sel:
+                    return f'iloc[:, {key}] gives {got[:4]}, expected {sel[:4]}'
+    except Exception as e:  # noqa
+        return f'a read that walks the column directory raised {type(e).__name__}: {str(e)[:80]}'
+    return None
+
+
+
 def snap_frame(g):
     import static_frame as sf
-    labels = g.columns.values.tolist()
-    npos = len(g.columns.positions)
-    shape = tuple(int(x) for x in g.shape)
-    cols = []
-    for j in range(shape[1]):
-        a = g._blocks._extract_array(column_key=j)
-        cols.append((a.dtype, lit.array_vals(a)))
-    layout = zoo.layout_of(g)
+    try:
+        labels = g.columns.values.tolist()
+    except Exception as e:  # noqa
+        labels = [_unreadable(e)]
+    try:
+        npos = len(g.columns.positions)
+    except Exception:  # noqa
+        npos = -1
+    try:
+        shape = tuple(int(x) for x in g.shape)
+    except Exception:  # noqa
+        shape = (-1, -1)
+    cols = _column_reads(g)
+    try:
+        layout = zoo.layout_of(g)
+    except Exception:  # noqa
+        layout = ()
     readable = []
     for i, l in enumerate(labels):
         ok = False
@@ -457,8 +533,11 @@ def snap_frame(g):
         except Exception:  # noqa
             ok = False
         readable.append(ok)
-    dts = list(g._blocks._dtypes)
-    rowdt = g._blocks._row_dtype
+    try:
+        dts = list(g._blocks._dtypes)
+        rowdt = g._blocks._row_dtype
+    except Exception:  # noqa
+        dts, rowdt = [], None
     try:
         pub = [np.dtype(x) for x in g.dtypes.values.tolist()] == [np.dtype(x) for x in dts] and \
             lit.vlist(lit.labels(g.dtypes.index)) == lit.vlist(labels)
@@ -471,6 +550,8 @@ def snap_frame(g):
         rows_consistent = repr(by_iter) == repr(rows) and repr(by_t) == repr(rows)
     except Exception:  # noqa
         rows, rows_consistent = [], False
+    if len(labels) == len(cols):            # (with more labels than data -- a known finding -- label based reads cannot agree)
+        rows_consistent = rows_consistent and _alt_reads(g, cols) is None
     return labels, npos, cols, shape, layout, readable, dts, rowdt, pub, rows, rows_consistent
 
 
@@ -831,7 +912,10 @@ def frame_random(ctx, count):
 
 def frame_cases(ctx):
     def emit(kind, init, ops, look):
-        desc, m, s, py_fail = frame_history(init, ops, look)
+        try:
+            desc, m, s, py_fail = frame_history(init, ops, look)
+        except Exception as e:  # noqa
+            return _escaped(kind, {'container': 'FrameGO', 'init': {'rows': _j(init['rows']), 'columns': _j(init['labels'])}, 'ops': [_j_op(o) for o in ops]}, e, {'container': 'FrameGO'})
         f = classify_frame_ops(init, ops)
         ctx.count(f'frame:{"auto" if init["labels"] is None else "map"}-columns', f'frame:len{len(ops)}',
                   'frame:layout:' + desc['init']['layout'])
@@ -857,6 +941,7 @@ def frame_cases(ctx):
 
 # ----------------------------------------------------------------------------- sharing / isolation
 F_COLPROP = 'C09-columns-property-is-the-live-index'
+F_COPY = 'C09-copy-copy-of-framego-shares-members'
 F_SETOP = 'C09-setop-without-operands-returns-self'
 
 
@@ -896,8 +981,10 @@ def content(c):
             for j in range(c.shape[1]):
                 a = c.iloc[:, j].values
                 cols.append((str(a.dtype), repr(a.tolist())))
+            walk = (repr([a.tolist() for a in c.iter_array(axis=0)]), repr(c.iloc[:, ::-1].values.tolist()),
+                    repr(c.iloc[:, -1].values.tolist()) if c.shape[1] else '', repr(c.iloc[:, 1:].values.tolist()))
             return ('F', type(c).__name__, repr(c.name), repr(lit.labels(c.index)), repr(lit.labels(c.columns)),
-                    tuple(c.shape), tuple(cols), repr(c.values.tolist()))
+                    tuple(c.shape), tuple(cols), repr(c.values.tolist()), walk)
         if isinstance(c, sf.Series):
             return ('S', type(c).__name__, repr(c.name), repr(lit.labels(c.index)), str(c.dtype), repr(c.values.tolist()))
         if isinstance(c, IndexBase):
@@ -1147,6 +1234,54 @@ def _frame_derivations():
         'columns.to_series': lambda s: s.columns.to_series(),
         'columns.sort': lambda s: s.columns.sort(ascending=False),
         'columns.roll': lambda s: s.columns.roll(1),
+        # --- functional updates with nothing to do: the result must not be the receiver, nor share a growable member
+        'insert_after-zero-columns': lambda s: s.insert_after(first(s), sf.Frame(index=s.index)),
+        'insert_before-zero-columns': lambda s: s.insert_before(first(s), sf.Frame(index=s.index)),
+        'insert_after-empty-frame': lambda s: s.insert_after(first(s), sf.Frame()),
+        'insert_before-empty-series': lambda s: s.insert_before(first(s), sf.Series((), name='e')),
+        'insert_after-zero-columns-go': lambda s: s.insert_after(first(s), sf.FrameGO(index=s.index)),
+        'drop-nothing': lambda s: s.drop[[]],
+        'drop.iloc-nothing': lambda s: s.drop.iloc[[], []],
+        'drop.loc-nothing': lambda s: s.drop.loc[[], []],
+        'astype-no-columns': lambda s: s.astype[[]](float),
+        'astype-same': lambda s: s.astype[first(s)](s[first(s)].dtype),
+        'assign-empty-key': lambda s: s.assign[[]](0),
+        'assign.iloc-empty-key': lambda s: s.assign.iloc[[], []](0),
+        'assign-same-values': lambda s: s.assign[first(s)](s[first(s)].values),
+        'relabel-columns-identity': lambda s: s.relabel(columns=lambda x: x),
+        'relabel-index-identity': lambda s: s.relabel(index=lambda x: x),
+        'relabel-columns-same-labels': lambda s: s.relabel(columns=list(s.columns) if s.columns.depth == 1 else s.columns),
+        'rename-same-name': lambda s: s.rename(s.name),
+        'reindex-same-index': lambda s: s.reindex(index=s.index),
+        'reindex-same-columns': lambda s: s.reindex(columns=s.columns),
+        'reindex-same-labels-as-lists': lambda s: s.reindex(index=list(s.index), columns=[x if s.columns.depth == 1 else tuple(x) for x in s.columns.values]),
+        'sort_index-sorted': lambda s: s.sort_index(),
+        'sort_columns-sorted': lambda s: s.sort_columns(),
+        'sort_values-sorted': lambda s: s.sort_values(first(s)),
+        'head-all': lambda s: s.head(10),
+        'tail-all': lambda s: s.tail(10),
+        'iloc[:]': lambda s: s.iloc[:],
+        'loc[:]': lambda s: s.loc[:],
+        'loc[:, :]': lambda s: s.loc[:, :],
+        'getitem-all': lambda s: s[:],
+        'getitem-all-labels': lambda s: s[[x if s.columns.depth == 1 else tuple(x) for x in s.columns.values]],
+        'copy.copy': lambda s: __import__('copy').copy(s),
+        'copy.deepcopy': lambda s: __import__('copy').deepcopy(s),
+        'roll-0': lambda s: s.roll(0),
+        'roll-0-columns': lambda s: s.roll(0, 0),
+        'shift-0': lambda s: s.shift(0),
+        'fillna-nothing': lambda s: s.fillna(0),
+        'dropna-nothing': lambda s: s.dropna(),
+        'drop_duplicated-nothing': lambda s: s.drop_duplicated(),
+        'sample-all': lambda s: s.sample(len(s.index), len(s.columns), seed=1),
+        'from_concat-one-rows': lambda s: s.__class__.from_concat((s,), axis=0),
+        'from_concat-one-columns': lambda s: s.__class__.from_concat((s,), axis=1),
+        'from_concat-with-zero-columns': lambda s: s.__class__.from_concat((s, sf.Frame(index=s.index)), axis=1),
+        'clip-nothing': lambda s: s.iloc[:, [0]].clip(),
+        'set_index-unset_index': lambda s: s.unset_index().set_index(0, drop=True) if False else s.unset_index(),
+        'transpose-transpose': lambda s: s.transpose().transpose(),
+        'relabel_level_add-drop': lambda s: s.relabel_level_add(columns='T').relabel_level_drop(columns=1),
+        'rehierarch-identity': lambda s: s.rehierarch(columns=(0, 1)),
         'insert_after': lambda s: s.insert_after(first(s), sf.Frame.from_dict({'ins': (0, 0, 0)}, index=s.index)),
         'insert_before': lambda s: s.insert_before(first(s), sf.Series((0, 0, 0), index=s.index, name='ins')),
         'from_concat-columns': lambda s: s.__class__.from_concat((s, s.relabel(columns=lambda x: ('k', x))), axis=1),
@@ -1233,6 +1368,23 @@ def _index_derivations():
         'head': lambda s: s.head(2),
         'tail': lambda s: s.tail(2),
         'drop.iloc': lambda s: s.drop.iloc[0],
+        # --- nothing to do
+        'loc-all': lambda s: s.loc[:],
+        'rename-same-name': lambda s: s.rename(s.name),
+        'relabel-same-labels': lambda s: s.relabel(dict()) ,
+        'union-empty': lambda s: s.union(()),
+        'difference-empty': lambda s: s.difference(()),
+        'sort-sorted': lambda s: s.sort(),
+        'roll-0': lambda s: s.roll(0),
+        'head-all': lambda s: s.head(10),
+        'tail-all': lambda s: s.tail(10),
+        'drop.iloc-nothing': lambda s: s.drop.iloc[[]],
+        'drop.loc-nothing': lambda s: s.drop.loc[[]],
+        'astype-same': lambda s: s.astype(s.dtype) if s.depth == 1 else s.astype[0](object),
+        'fillna-nothing': lambda s: s.fillna('z'),
+        'iloc-all-list': lambda s: s.iloc[list(range(len(s)))],
+        'level_add-level_drop': lambda s: s.level_add('L').level_drop(1),
+        'rehierarch-identity': lambda s: s.rehierarch((0, 1)),
         'add': lambda s: s + '_',
         'iter_label.apply': lambda s: s.iter_label().apply(lambda x: x),
     }
@@ -1396,7 +1548,11 @@ def sharing_cases(ctx):
                 if ctx.tier == 'thorough' or src_name in ('FrameGO', 'Frame', 'IndexGO', 'IndexHierarchyGO'):
                     table.update({k: v for k, v in _auto_derivations(make_src()).items()})
                 for dname, derive in sorted(table.items()):
-                    live, steps, problems = sharing_history(src_name, make_src, dname, derive)
+                    try:
+                        live, steps, problems = sharing_history(src_name, make_src, dname, derive)
+                    except Exception as e:  # noqa
+                        yield _escaped('api:sharing-' + family, {'source': src_name, 'derivation': dname}, e, {'container': src_name, 'derivation': dname})
+                        continue
                     if live is None:
                         ctx.count('sharing:not-applicable')
                         continue
@@ -1406,6 +1562,8 @@ def sharing_cases(ctx):
                     base = dname.replace('auto:', '')
                     if base in ('columns-property', 'columns', 'keys') and src_name.startswith('FrameGO'):
                         tags['finding'] = F_COLPROP
+                    if dname == 'copy.copy' and src_name.startswith('FrameGO'):
+                        tags['finding'] = F_COPY
                     desc = {'source': src_name, 'derivation': dname, 'steps': steps, 'problems': problems[:4]}
                     emitted += 1
                     yield Case('api:sharing-' + family, desc, py_fail='; '.join(problems[:3]) if problems else None,
@@ -1600,7 +1758,10 @@ def hier_random(ctx, count):
 
 def hier_cases(ctx):
     def emit(kind, labels, depth, ops, look, model=True):
-        desc, m, s = hier_history(labels, depth, ops, look, model)
+        try:
+            desc, m, s = hier_history(labels, depth, ops, look, model)
+        except Exception as e:  # noqa
+            return _escaped(kind, {'container': 'IndexHierarchyGO', 'labels': _j(labels), 'ops': _j([list(o) for o in ops])}, e, {'container': 'IndexHierarchyGO'})
         f = classify_hier_ops(labels, depth, ops)
         ctx.count(f'hier:depth{depth}', f'hier:len{len(ops)}')
         for op in ops:
@@ -1958,11 +2119,33 @@ KNAME = {'Frame': 'KFrame', 'FrameGO': 'KFrameGO', 'FrameHE': 'KFrameHE'}
 
 
 def _fview_lit(fr):
-    cols = []
-    for j in range(fr.shape[1]):
-        a = fr._blocks._extract_array(column_key=j)
-        cols.append(f'({lit.dtype(a.dtype)}, {lit.vlist(lit.array_vals(a))})')
-    return f'({KNAME[type(fr).__name__]}, {lit.vlist(fr.columns.values.tolist())}, {lit.lst(cols)})'
+    cols = [f'({lit.dtype(dt)}, {lit.vlist(vs)})' for dt, vs in _column_reads(fr)]
+    try:
+        labels = fr.columns.values.tolist()
+    except Exception as e:  # noqa
+        labels = [_unreadable(e)]
+    return f'({KNAME[type(fr).__name__]}, {lit.vlist(labels)}, {lit.lst(cols)})'
+
+
+def _world_problems(live):
+    """Python-side observations of a world: directory-walking reads of every live frame, and identity of the
+    growable LISTS inside distinct TypeBlocks objects (_blocks, _index, _dtypes) when a grow-only frame is involved."""
+    import static_frame as sf
+    for i, f in enumerate(live):
+        why = _alt_reads(f, _column_reads(f))
+        if why:
+            return f'live[{i}] ({type(f).__name__}): {why}'
+    for i in range(len(live)):
+        for j in range(i + 1, len(live)):
+            a, b = live[i], live[j]
+            if a is b or a._blocks is b._blocks:
+                continue                         # the same TypeBlocks object is compared with the model
+            if not (isinstance(a, sf.FrameGO) or isinstance(b, sf.FrameGO)):
+                continue
+            for attr in ('_blocks', '_index', '_dtypes'):
+                if getattr(a._blocks, attr) is getattr(b._blocks, attr):
+                    return f'live[{i}] and live[{j}] are different TypeBlocks sharing the list TypeBlocks.{attr}'
+    return None
 
 
 def _same_pairs(objs):
@@ -1992,6 +2175,7 @@ def world_history(cls_name, init, ops):
     blocks0 = lit.lst([_blk_lit(b) for b in f0._blocks._blocks])
     live = [f0]
     recs, srecs, steps = [], [], []
+    py_fail = None
     prev_views = lit.lst([_fview_lit(f0)])
     failed_conversion = False
     for op in ops:
@@ -2025,6 +2209,10 @@ def world_history(cls_name, init, ops):
             else:
                 failed_conversion = True
         seen, pc, pb = _wseen_lit(live)
+        if py_fail is None:
+            why = _world_problems(live)
+            if why:
+                py_fail = f'after step {len(recs) + 1}: {why}'
         recs.append(f'({ol}, {_out(exc)}, {seen})')
         srecs.append(f'({"SGrow" if kind == "grow" else "SConv"} {i}%nat, {_out(exc)}, {seen})')
         what.update({'raised': None if exc is None else type(exc).__name__, 'live': [type(f).__name__ for f in live],
@@ -2038,7 +2226,7 @@ def world_history(cls_name, init, ops):
             'steps': steps}
     m = (f'check_world_M {KNAME[cls_name]} {lit.b(auto)} {lit.vlist(init["rows"])} {lit.vlist(labels0)} {blocks0} {h}')
     s = f'check_world_S {prev_views} {lit.lst(srecs)}'
-    return desc, m, s
+    return desc, m, s, py_fail
 
 
 def world_cases(ctx):
@@ -2051,11 +2239,14 @@ def world_cases(ctx):
         return {'op': 'set', 'key': f'n{k}', 'value': ('arr', i8, [k, k + 1])}
 
     def emit(kind, cls_name, init, ops):
-        desc, m, s = world_history(cls_name, init, ops)
+        try:
+            desc, m, s, py_fail = world_history(cls_name, init, ops)
+        except Exception as e:  # noqa
+            return _escaped(kind, {'first': cls_name, 'ops': [[o[0], o[1], o[2] if o[0] != 'grow' else _j_op(o[2])] for o in ops]}, e, {'container': 'world'})
         ctx.count('world:first:' + cls_name, f'world:len{len(ops)}')
         for op in ops:
             ctx.count('world:op:' + op[0] + (':' + op[2] if op[0] != 'grow' else ''))
-        return Case(kind, desc, m=m, s=s, tags={'container': 'world'}, nontrivial=any(o[0] == 'grow' for o in ops))
+        return Case(kind, desc, m=m, s=s, py_fail=py_fail, tags={'container': 'world'}, nontrivial=any(o[0] == 'grow' for o in ops))
     # exhaustive: every source class x every conversion x (grow the source / the result, when grow-only) x a second conversion
     for src in classes:
         for kind in ('to', 'ctor'):
@@ -2070,6 +2261,10 @@ def world_cases(ctx):
                         if dst == 'FrameGO':
                             ops.append(('grow', 1, grow_op(k)))
                             k += 1
+                        if src == 'FrameGO' and dst == 'FrameGO':
+                            for side in (0, 1, 0, 1):          # interleaved growth on both sides of the pair
+                                ops.append(('grow', side, grow_op(k)))
+                                k += 1
                         ops.append((kind2, 1, dst2))
                         if dst2 == 'FrameGO':
                             ops.append(('grow', 2, grow_op(k)))
